@@ -129,6 +129,15 @@ func (r *runner) checkIndexLevel(real *Real, final map[int]Doc, cs Case, cls str
 		cs2.Query = &all
 		c.Violation(sig("MatchAll"+f.Clause, cls), fmt.Sprintf("match_all on kind %s: %s", real.Kind, f.What), cs2)
 	}
+	// a page smaller than the result: Total still counts all parents
+	if len(final) > 1 {
+		one := real.Search(all, 1)
+		if one.Err == "" && (one.Total != len(final) || len(one.Hits) != 1 || one.Hits[0].Sub || !want[one.Hits[0].ID]) {
+			cs2 := cs
+			cs2.Query = &all
+			c.Violation(sig("MatchAllTotalCountsParents", cls), fmt.Sprintf("match_all with Size=1 on kind %s: Total=%d hits=%v, live parents=%d", real.Kind, one.Total, one.Hits, len(final)), cs2)
+		}
+	}
 	l, err := real.Layout()
 	if err != nil {
 		c.Inconclusive("layout: " + err.Error())
